@@ -2,6 +2,7 @@ import importlib.util
 import os
 import queue
 import sys
+import uuid
 from concurrent.futures import Future
 from time import sleep
 from typing import Callable, List, Optional
@@ -674,7 +675,12 @@ def _execute_task_with_cache(
             try:
                 result = interface.send_and_receive_dict(input_dict=task_dict)
                 data_dict["output"] = result
-                dump(file_name=file_name, data_dict=data_dict)
+                # write under a temporary name and rename, so a file with the final name is always complete
+                file_name_tmp = os.path.join(
+                    cache_directory, task_key + "_" + uuid.uuid4().hex + ".h5tmp"
+                )
+                dump(file_name=file_name_tmp, data_dict=data_dict)
+                os.rename(file_name_tmp, file_name)
                 f.set_result(result)
             except Exception as thread_exception:
                 interface.shutdown(wait=True)
